@@ -85,6 +85,7 @@ type Contract struct {
 	ParamNames []string // optional rename of positional params (lib/iface)
 	Panics   []Clause // allowed panic conditions
 	Alias    string
+	Returns  string
 }
 
 type Specs struct {
@@ -97,11 +98,12 @@ type Specs struct {
 	Order     []string
 	SortAlias map[string]Sort
 	Aliases   map[string]*Contract
+	ConstGlobals map[string]bool
 }
 
 func newSpecs() *Specs {
 	return &Specs{Models: map[string]*ModelDecl{}, UFuns: map[string]*UFunDecl{}, Defs: map[string]*DefDecl{}, Consts: map[string]Clause{},
-		Contracts: map[string]*Contract{}, Aliases: map[string]*Contract{}, SortAlias: map[string]Sort{
+		Contracts: map[string]*Contract{}, Aliases: map[string]*Contract{}, ConstGlobals: map[string]bool{}, SortAlias: map[string]Sort{
 			"int": SInt, "Int": SInt, "bool": SBool, "Bool": SBool, "string": SStr, "Str": SStr, "ref": SInt, "obj": SInt, "Ref": SInt,
 			"Iface": SIface, "iface": SIface, "error": SIface, "Slice": SSlice, "slice": SSlice,
 			"IntSet": "(Array Int Bool)", "StrSet": "(Array Str Bool)", "IntMap": "(Array Int Int)", "StrMap": "(Array Str Str)", "StrBoolMap": "(Array Str Bool)",
@@ -117,7 +119,7 @@ func (s *Specs) sortByName(n string) (Sort, error) {
 
 var clauseKeywords = map[string]bool{"func": true, "lib": true, "iface": true, "model": true, "ufun": true, "def": true, "axiom": true, "const": true,
 	"requires": true, "ensures": true, "assigns": true, "pure": true, "readonly": true, "inline": true, "loop": true, "sink": true, "at": true,
-	"trusted": true, "alias": true, "fresh": true, "panics": true, "props": true, "sort": true, "params": true}
+	"trusted": true, "alias": true, "returns": true, "also": true, "like": true, "fresh": true, "panics": true, "props": true, "sort": true, "params": true, "constglobal": true}
 
 // loadSpecFile parses one contract/spec file. Lines may carry a "//@" prefix (Go comment-only contract files).
 func (s *Specs) loadSpecFile(path string) error {
@@ -193,6 +195,8 @@ func (s *Specs) loadSpecFile(path string) error {
 			if cur != nil {
 				cur.Props = curProps
 			}
+		case "constglobal":
+			s.ConstGlobals[rest] = true
 		case "sort":
 			// sort Name = smt-sort-text
 			parts := strings.SplitN(rest, "=", 2)
@@ -271,6 +275,30 @@ func (s *Specs) loadSpecFile(path string) error {
 				cur.Inline = true
 			case "trusted":
 				cur.Trusted = true
+			case "also":
+				for _, k := range strings.Split(rest, "|") {
+					k = strings.TrimSpace(k)
+					if k == "" {
+						continue
+					}
+					if old, ok := s.Contracts[k]; ok && old != cur {
+						return fmt.Errorf("%s: duplicate contract for %s (first at %s)", where, k, old.File)
+					}
+					s.Contracts[k] = cur
+				}
+			case "like":
+				src := s.Contracts[rest]
+				if src == nil {
+					return fmt.Errorf("%s: like: unknown contract %q (must be defined earlier)", where, rest)
+				}
+				cur.Requires = append(cur.Requires, src.Requires...)
+				cur.Ensures = append(cur.Ensures, src.Ensures...)
+				cur.Assigns = append(cur.Assigns, src.Assigns...)
+				cur.HasAssigns = cur.HasAssigns || src.HasAssigns
+				cur.Readonly = cur.Readonly || src.Readonly
+				cur.Fresh = append(cur.Fresh, src.Fresh...)
+			case "returns":
+				cur.Returns = rest
 			case "alias":
 				cur.Alias = rest
 				s.Aliases[rest] = cur
